@@ -79,6 +79,8 @@ def try_(name, tier="quick", prop=None):
         t0 = time.time()
         r = subprocess.run(["./check", prop, tier], cwd=HERE, capture_output=True, text=True, timeout=7200)
         viol = [l for l in r.stdout.splitlines() if l.startswith("VIOLATION")]
+        if r.returncode == 2:
+            print("HARNESS:", r.stderr[-1500:])
         res = {"check": "./check %s %s" % (prop, tier), "exit": r.returncode, "violations": [v[:400] for v in viol[:4]], "n_violation_lines": len(viol), "wall_s": round(time.time() - t0, 1)}
     finally:
         sh("git -C /repo checkout -- .")
